@@ -234,6 +234,9 @@ class ListField(Field):
         """
         if self.field is None or isinstance(self.field, AnyField):
             return value
+        if value is not None and not isinstance(value, (list, tuple)):
+            # a string or a map would be iterated item by item
+            raise ValueError("value is not a list")
         if isinstance(self.field, Field) and isinstance(value, (list, tuple)):
             # undo the item field's on-disk encoding (the inverse of to_basic) before validating
             value = [self.field.to_python(cfg, item) for item in value]
